@@ -27,7 +27,8 @@ fn leaves() -> Vec<RefValue> {
          // every control character once (each low nibble of the \u00XX form, the one without a short form between \n and \f)
          RefValue::Str("abcdefgh\u{b}".into()), RefValue::Str((0u8..0x20).map(|b| b as char).collect::<String>())]
 }
-const KEYS: [&str; 4] = ["", "k", "k", "\"\u{e9}\n"];
+// (keys on which Rust's `Debug` / `escape_default` renderings differ from the JSON escapes are there on purpose)
+const KEYS: [&str; 8] = ["", "k", "k", "\"\u{e9}\n", "\u{0}\u{1f}", "\u{7f}\u{2028}'", "\u{feff}e\u{301}", "\u{ffff}\u{1F600}\\"];
 
 fn values(depth: usize, breadth: usize) -> Vec<RefValue> {
     let mut cur = leaves();
@@ -38,7 +39,7 @@ fn values(depth: usize, breadth: usize) -> Vec<RefValue> {
         for a in &base { next.push(RefValue::Arr(vec![a.clone()])); for (ki, k) in KEYS.iter().enumerate() { if ki % 2 == 0 { next.push(RefValue::Obj(vec![(k.to_string(), a.clone())])); } } }
         if breadth >= 2 { for (i, a) in base.iter().enumerate() { for (j, b) in base.iter().enumerate() { if (i + j) % 2 == 0 {
             next.push(RefValue::Arr(vec![a.clone(), b.clone()]));
-            next.push(RefValue::Obj(vec![(KEYS[i % 4].to_string(), a.clone()), (KEYS[j % 4].to_string(), b.clone())]));
+            next.push(RefValue::Obj(vec![(KEYS[i % KEYS.len()].to_string(), a.clone()), (KEYS[(j + 3) % KEYS.len()].to_string(), b.clone())]));
         } } } }
         if breadth >= 3 { for (i, a) in base.iter().enumerate().take(4) { next.push(RefValue::Arr(vec![a.clone(), base[(i + 1) % base.len()].clone(), base[(i + 2) % base.len()].clone()])); next.push(RefValue::Obj(vec![("k".into(), a.clone()), ("k".into(), base[(i + 1) % base.len()].clone()), ("z".into(), base[(i + 2) % base.len()].clone())])); } }
         cur = next;
